@@ -251,6 +251,20 @@ P_CYC_CALLS = [("line", "'ab'=cd"), ("line", "'ab=cd"), ("line", "['x']\"q\"=z")
                ("label", "['a']"), ("label", "['a]"), ("blk", "{a;{b}c}"), ("blk", "{a;{b}"), ("item", "{x}"), ("item", "x;"), ("ent", "{a}"), ("ent", "{a}!"), ("ent", "a}"), ("chk", "{a}"), ("chk", "xax"), ("chk", "{a"),
                ("deep", "<<.e>>"), ("deep", "<<.<>>"), ("deep", "<.<>"), ("deep", ".e"), ("tail", ".e"), ("tail", ".x")]
 
+# the "read up to a terminator" idiom, (!X ~ ANY)*, which the optimizer's skip pass rewrites
+# into a search: several terminators per rule, inputs with and without each of them -- every
+# call goes through the rewritten node, so per-node scratch of that search shows in any pair
+P_SKIP = r"""
+chunk = { (!("<" | "&") ~ ANY)* }
+line  = { (!NEWLINE ~ ANY)* ~ NEWLINE? }
+upto  = { (!("--" | ";" | "\n") ~ ANY)+ ~ ("--" | ";")? }
+cmt   = { "#" ~ (!NEWLINE ~ ANY)* }
+doc   = { (chunk ~ ("<" ~ (!">" ~ ANY)* ~ ">" | "&" ~ ASCII_ALPHA+ ~ ";"))* ~ chunk }
+"""
+P_SKIP_CALLS = [("chunk", "ab<cd>&ef"), ("chunk", "abcdef"), ("chunk", "ab&"), ("chunk", "<"), ("line", "abc\n"), ("line", "abc"), ("line", "ab\rc"), ("line", "a\r\nb"),
+                ("upto", "a--b"), ("upto", "a;b"), ("upto", "ab"), ("upto", "a-b\nc"), ("cmt", "# x\n"), ("cmt", "# x"), ("cmt", "x"),
+                ("doc", "ab<cd>&ef;gh"), ("doc", "ab<cd"), ("doc", "x&y"), ("doc", "plain"), ("doc", "<a><b>&c;")]
+
 FIXED = {
     # "overflow": inputs nested far beyond the interpreter's recursion budget -- the isolated
     # reference is RecursionError, and stays so whatever happened before
@@ -263,6 +277,7 @@ FIXED = {
     "P-mod": {"text": P_MOD, "calls": P_MOD_CALLS},
     "P-fold": {"text": P_FOLD, "calls": P_FOLD_CALLS},
     "P-cyc": {"text": P_CYC, "calls": P_CYC_CALLS},
+    "P-skip": {"text": P_SKIP, "calls": P_SKIP_CALLS},
 }
 
 # ------------------------------------------------------------------- random grammars
